@@ -11,7 +11,10 @@
 From Coq Require Import List Bool Arith NArith.
 From TG.Model Require Import Chars LineIndex ServerProto.
 From TG.Gen Require Import GenServerConv GenLineIndex.
-From TG.Proofs Require Import ServerProofs ServerSource.
+From TG.Model Require Import SymbolMap SymbolWf.
+From TG.Model Require CoreAst AstToCore Indexer IndexerOps Pipeline.
+From TG.Proofs Require BridgeSymbol.
+From TG.Proofs Require Import ServerProofs ServerSource ServerPipeline.
 Import ListNotations.
 Open Scope N_scope.
 
@@ -120,6 +123,79 @@ Check C09_plumbing_is_source : forall (content : file -> text),
   (forall li o, src_to_proto_position li o = to_proto_position li o) /\
   (forall li r, src_to_proto_folding_range li r = to_proto_folding_range li r).
 Print Assumptions C09_plumbing_is_source.
+
+(** Composition with C17 (group symmap/bridge: every range the modelled analysis produces is valid in its file) and
+    C10 (group lines: exactness of the position mapping): for EVERY analysis of the model pipeline (Pipeline.analyze:
+    texts -> modelled parser -> tree -> CoreAst -> Indexer) that yields a Core workspace, with only the size hypothesis
+    left ([small_ws]: every text below 4 GiB): every definition answer, every references answer and every
+    publication of index diagnostics sends, under the URI of the file the analysed range names, an LSP range that
+    [denotes] it: computed with THAT file's text ([pos_of t lo], [pos_of t hi], iii), lo <= hi <= length, and each end
+    is [faithful]: its line exists (line <= number of terminators), and either the offset is not between a CR and its
+    LF, the character is at most the UTF-16 length of that line's content (i) and from_proto converts the position back
+    to exactly the offset (ii) - or it is between CR and LF (one column past the content; converts back to the CR). *)
+Theorem C09_pipeline : forall (pfuel cfuel : nat) (files : list (text * text)) (root : text)
+    (a : Pipeline.analysis) (w : CoreAst.workspace),
+  Pipeline.analyze pfuel cfuel files root = Some a -> Pipeline.an_core a = AstToCore.Ok w ->
+  let S := IndexerOps.abs (Indexer.index_ws w) in
+  let ws := BridgeSymbol.an_texts a in
+  let content := content_of ws in
+  small_ws ws ->
+  (forall f p t, goto_definition S f p = SOk (Some t) ->
+     exists lr, h_definition content (N.to_nat f) (Some (loc_of t)) = Ok (Some (N.to_nat (fr_file t), lr)) /\
+                denotes ws t lr) /\
+  (forall f p rs, references S f p = SOk (Some rs) ->
+     exists lrs, h_references content (N.to_nat f) (Some (map loc_of rs)) = Ok (Some lrs) /\
+                 Forall2 (fun r out => fst out = N.to_nat (fr_file r) /\ denotes ws r (snd out)) rs lrs) /\
+  (forall (M : Type) (dm : list (file * list (rng * M))),
+     (forall e d, In e dm -> In d (snd e) ->
+        exists r, In r (sm_diags S) /\ fst e = N.to_nat (fr_file r) /\ fst d = (fr_lo r, fr_hi r)) ->
+     exists out, h_diagnostics content dm = Ok out /\
+       Forall2 (fun e o => fst o = fst e /\
+                  Forall2 (fun d od => snd od = snd d /\
+                             exists r, In r (sm_diags S) /\ fst e = N.to_nat (fr_file r) /\ denotes ws r (fst od))
+                          (snd e) (snd o))
+               dm out).
+Proof. exact c09_pipeline. Qed.
+Print Assumptions C09_pipeline.
+
+(** what [faithful] / [denotes] say, pinned *)
+Check (eq_refl : faithful = fun (t : text) (o : N) =>
+  let l := fst (pos_of t o) in
+  let c := snd (pos_of t o) in
+  l <= count_terms t /\
+  exists li, li_new t = Ok li /\
+    ((~ inside_crlf t o /\
+      (exists q content rest, is_line t l q content rest /\ c <= u16 content) /\
+      from_proto_position li (pos_of t o) = Ok o) \/
+     (inside_crlf t o /\ from_proto_position li (pos_of t o) = Ok (o - 1)))).
+Check (eq_refl : denotes = fun (ws : list wtext) (r : file_range) (lr : lrange) =>
+  exists t, fmap_get ws (fr_file r) = Some t /\
+    lr = (pos_of t (fr_lo r), pos_of t (fr_hi r)) /\
+    fr_lo r <= fr_hi r /\ fr_hi r <= bytes t /\
+    faithful t (fr_lo r) /\ faithful t (fr_hi r)).
+
+(** every character-boundary offset of every text below 4 GiB is faithful (C10 + the line lemma) *)
+Theorem C09_position_faithful : forall (t : text) (o : N),
+  bytes t <= u32_max -> on_char_boundary t o -> faithful t o.
+Proof. exact position_faithful. Qed.
+Print Assumptions C09_position_faithful.
+
+(** Non-vacuity: main.td = include "sub.td"\n/* é */ class Foo : Bar;   sub.td = // ü😀\nclass Bar;  (by vm_compute
+    through the whole model pipeline): the hypotheses hold; `Bar` is answered in sub.td's coordinates; `Foo`, which
+    follows a two-byte character on its line, at UTF-16 columns 14..17 (byte columns would be 15..18). *)
+Example C09_pipeline_nonvacuous :
+  exists a w,
+    Pipeline.analyze 200 10 [(ex_main_path, ex_main); (ex_sub_path, ex_sub)] ex_main_path = Some a /\
+    Pipeline.an_core a = AstToCore.Ok w /\
+    small_ws (BridgeSymbol.an_texts a) /\
+    let S := IndexerOps.abs (Indexer.index_ws w) in
+    let content := content_of (BridgeSymbol.an_texts a) in
+    goto_definition S 0 38 = SOk (Some (mkFR 1 16 19)) /\
+    h_definition content 0%nat (Some (loc_of (mkFR 1 16 19))) = Ok (Some (1%nat, ((1, 6), (1, 9)))) /\
+    goto_definition S 0 33 = SOk (Some (mkFR 0 32 35)) /\
+    h_definition content 0%nat (Some (loc_of (mkFR 0 32 35))) = Ok (Some (0%nat, ((1, 14), (1, 17)))) /\
+    references S 1 16 = SOk (Some [mkFR 0 38 41]).
+Proof. exact c09_pipeline_nonvacuous. Qed.
 
 (** Non-vacuity (and the defect repaired by 5c4888d, D6): on the workspace root = include "sub.td"\nclass Foo : Bar;
     sub.td = \n\nclass Bar; the hypotheses hold for the definition of Bar (bytes 8..11 of sub.td); the repaired handler
